@@ -200,6 +200,33 @@ def check(c):
                 if adopted.get(o.id) is not o:
                     raise Violation("adopted-twice", ("another-object", "closed" if c.get("closed") else "open"),
                                     "after the second delivery reference %r belongs to another order object than before" % o.customer_order_ref, c)
+        # ---- settlement: the exchange's cleared orders are attached by reference - a record whose reference belongs to
+        #      no local order (another instance / an unregistered strategy) is attached to nobody
+        from betfairlightweight.resources.bettingresources import ClearedOrders
+
+        def cleared_rec(ref, bet_id, profit):
+            return dict(betId=str(bet_id), customerOrderRef=ref, profit=profit, marketId="1.100000000", selectionId=1001, handicap=0, side="BACK",
+                        orderType="LIMIT", persistenceType="LAPSE", placedDate="2020-01-01T00:00:00.000Z", settledDate="2020-01-01T00:00:00.000Z",
+                        lastMatchedDate="2020-01-01T00:00:00.000Z", betCount=1, priceMatched=2.0, priceRequested=2.0, priceReduced=False,
+                        sizeSettled=2.0, betOutcome="WON", eventId="1", eventTypeId="7")
+
+        for m in fw.markets:
+            local = list(m.blotter)
+            if not local:
+                continue
+            recs, want = [], {}
+            for k, o in enumerate(local[:6]):
+                recs.append(cleared_rec(o.customer_order_ref, 5000 + k, float(k + 1)))
+                want[o.id] = float(k + 1)
+                if k % 2 == 0:  # a foreign record right after a known one
+                    recs.append(cleared_rec("ffffffffffff0-9%017d" % k, 9000 + k, -100.0 - k))
+            m.blotter.process_cleared_orders(ClearedOrders(moreAvailable=False, clearedOrders=recs))
+            for o in local[:6]:
+                got = getattr(o.cleared_order, "profit", None) if getattr(o, "cleared_order", None) is not None else None
+                if got != want[o.id]:
+                    raise Violation("cleared-order-misattributed", (), "order %s (reference %r) carries the cleared record with profit %s, its own record says %s" % (
+                        o.id, o.customer_order_ref, got, want[o.id]), c)
+            classes.add("cleared-orders-with-foreign-records")
         fw.simulated_execution.shutdown()
         fw.betfair_execution.shutdown()
         fw.betdaq_execution.shutdown()
